@@ -270,11 +270,36 @@ func c05Recovery(c *eng.Ctx, r *eng.Report) {
 	})
 	nErase := 0
 	for _, fn := range cone.Sorted() {
-		if fn.Blocks == nil || eng.FuncName(fn) == "(*core.blockChain).remove" {
-			continue
+		if fn.Blocks == nil || eng.FuncName(fn) == "(*core.blockChain).remove" || fn.Synthetic != "" {
+			continue // $bound/$thunk wrappers of a method value are not holders: the call through the value is (below)
 		}
 		removes := callsNamed(fn, "(*core.blockChain).remove")
 		erasers := callsNamed(fn, ".eraseAddBlockMark", ".eraseRemoveBlockMark")
+		// an eraser handed in as a function value (`rollback(mark, chain.eraseAddBlockMark)`):
+		// the call through the parameter is the erase event of this function
+		for _, s := range eng.Sites(fn) {
+			prm, isP := s.Common().Value.(*ssa.Parameter)
+			if !isP || s.Common().IsInvoke() {
+				continue
+			}
+			idx := -1
+			for i, q := range fn.Params {
+				if q == prm {
+					idx = i
+				}
+			}
+			for _, cs := range c.Callers(fn) {
+				if idx < 0 || idx >= len(cs.Common().Args) {
+					continue
+				}
+				if d := eng.Desc(cs.Common().Args[idx]); strings.Contains(d, "eraseAddBlockMark") || strings.Contains(d, "eraseRemoveBlockMark") {
+					if call, isC := s.Instr.(*ssa.Call); isC {
+						erasers = append(erasers, call)
+					}
+					break
+				}
+			}
+		}
 		// a recovery helper that deletes the mark key itself counts as an erase event too
 		if n := eng.FuncName(fn); !strings.HasSuffix(n, ".eraseAddBlockMark") && !strings.HasSuffix(n, ".eraseRemoveBlockMark") {
 			for _, op := range dbOps(fn) {
@@ -415,7 +440,7 @@ func c05StateBeforeHead(c *eng.Ctx, r *eng.Report) {
 
 func c05ForkChoice(c *eng.Ctx, r *eng.Report) {
 	const rule = "R5.5"
-	r.Min(rule, 4)
+	r.Min(rule, 3) // addBlockOnChain (one or two reorg sites), triggerOnChain, the tie-break's shape
 	rfa := c.Func("core", "(*blockChain).removeFromCommonAncestor")
 	add := c.Func("core", "(*blockChain).addBlockOnChain")
 	if !r.Anchor(rfa != nil, rule, "removeFromCommonAncestor") || !r.Anchor(add != nil, rule, "addBlockOnChain") {
@@ -454,6 +479,31 @@ func c05ForkChoice(c *eng.Ctx, r *eng.Report) {
 					} else {
 						r.Fail(rule, key+":roles", pos, "chainPvGreatThanRemote is called with ("+a0+", "+a1+"): expected (the local block at commonAncestor.Height+1 where commonAncestor = block of coming.PreHash, coming.Header)")
 					}
+				}
+			}
+			if notLess && !greater && !pvLost {
+				// one reorg tail shared by both reasons: every path to the call crosses either the edge on which the
+				// weights differ (with >= established: strictly greater) or the edge on which the local competitor loses
+				rolesOK := func(call *ssa.Call) bool {
+					a0, a1 := eng.Desc(call.Call.Args[0]), eng.Desc(call.Call.Args[1])
+					return strings.Contains(a0, "QueryBlockHeaderByHeight") && strings.Contains(a0, "queryBlockHeaderByHash") && strings.Contains(a0, ".PreHash") && strings.Contains(a0, ".Height + 1") && a1 == "coming.Header"
+				}
+				cut := func(a *ssa.BasicBlock, succ int) bool {
+					iff, isIf := a.Instrs[len(a.Instrs)-1].(*ssa.If)
+					if !isIf {
+						return false
+					}
+					cd := eng.Cond{V: iff.Cond, True: succ == 0, If: iff}
+					if m, ok := cd.Cmp(); ok && isQN(m.X, "coming.Header") && isQN(m.Y, ".latestBlock") && (m.Op == token.GTR || m.Op == token.NEQ) {
+						return true
+					}
+					if call, ok := iff.Cond.(*ssa.Call); ok && eng.CallName(&call.Call) == "core.chainPvGreatThanRemote" && succ == 1 && rolesOK(call) {
+						return true
+					}
+					return false
+				}
+				if !eng.PathToAvoiding(fn, site.Instr, nil, cut) {
+					greater, pvLost = true, true
 				}
 			}
 			r.Check(notLess && (greater || pvLost), rule, key, pos, "reorg only when coming.TotalQN >= top.TotalQN and (strictly greater or the local competitor at the fork point loses on prove value/hash)",
@@ -908,7 +958,7 @@ func derivesFromCall(v ssa.Value, callee string, depth int) bool {
 // block with its transactions.
 func c05MarkContent(c *eng.Ctx, r *eng.Report) {
 	const rule = "R5.3"
-	n := 0
+	n, nPut := 0, 0
 	for _, fn := range c.PkgFuncs("core") {
 		if c.IsTestFunc(fn) {
 			continue
@@ -922,6 +972,7 @@ func c05MarkContent(c *eng.Ctx, r *eng.Report) {
 				continue
 			}
 			n++
+			nPut++
 			name := eng.FuncName(fn)
 			key := "mark-content:" + name
 			val := op.Call.Args[1]
@@ -964,7 +1015,7 @@ func c05MarkContent(c *eng.Ctx, r *eng.Report) {
 			}
 		}
 	}
-	r.Check(n >= 4, rule, "mark-content:sites", "", fmt.Sprintf("%d mark writes / recovery removals", n), fmt.Sprintf("only %d mark writes and recovery removals found (2 + 2 expected)", n))
+	r.Check(nPut >= 2 && n-nPut >= 1, rule, "mark-content:sites", "", fmt.Sprintf("%d mark writes / %d recovery removals", nPut, n-nPut), fmt.Sprintf("only %d mark writes and %d recovery removals found (2 and at least 1 expected)", nPut, n-nPut))
 }
 
 // c05HeaderCacheFollowsIndex: see R5.11.
